@@ -307,5 +307,97 @@ def tasks_step_dynamics():
     return out
 
 
+def tasks_admissible():
+    """C07, element layer: under the admissible domain (positive parameters, non-negative states,
+    rho_crit < rho_max, T, tau, kappa > 0, excluding the model's own 0/0 at a merge with zero
+    inflow / a bifurcation with zero first-segment density) every engine primitive is called
+    inside its domain - the `pre ... (defined)` obligations of the EngineSpec contracts."""
+    out = []
+
+    def params(c):
+        tau, eta, kappa, T_, delta, phi = (T.var(x, T.REAL) for x in ("tau", "eta", "kappa", "T", "delta", "phi"))
+        for h in (T.lt(0, tau), T.le(0, eta), T.lt(0, kappa), T.lt(0, T_), T.le(0, delta), T.le(0, phi)):
+            c.axiom(h)
+        return tau, eta, kappa, T_, delta, phi
+
+    def run_up(interp, c):
+        eng = setup_engine(interp, c, "explicit")
+        fn, _ = get_fn(interp, "sym_metanet.blocks.nodes", "Node", "get_upstream_speed_and_flow")
+        net = G.GhostNet(interp, admissible=True)
+        n, l = T.var("n", R), T.var("l", R)
+        tau, eta, kappa, T_, delta, phi = params(c)
+        c.axiom(G.link_in_net(l))
+        c.axiom(T.eq(G.up(l), n))
+        # excluded by the property: zero total entering flow where the weighted speed is used
+        c.axiom(T.implies(T.le(2, G.n_in(n)), T.ne(A.vsum(V.entering_last_flows(n)), 0)))
+        run_guarded(interp, c, fn, [net.node(n), net, net.link(l), eng], {"T": T_})
+
+    out.append(Task("sym_metanet.blocks.nodes:Node.get_upstream_speed_and_flow<admissible>", run_up, props=("C07",), check_defined=True,
+                    func="sym_metanet.blocks.nodes:Node.get_upstream_speed_and_flow", config="admissible domain"))
+
+    def run_down(interp, c):
+        eng = setup_engine(interp, c, "explicit")
+        fn, _ = get_fn(interp, "sym_metanet.blocks.nodes", "Node", "get_downstream_density")
+        net = G.GhostNet(interp, admissible=True)
+        n = T.var("n", R)
+        c.axiom(T.implies(T.le(2, G.n_out(n)), T.ne(A.vsum(V.leaving_first_densities(n)), 0)))
+        run_guarded(interp, c, fn, [net.node(n), net, eng], {})
+
+    out.append(Task("sym_metanet.blocks.nodes:Node.get_downstream_density<admissible>", run_down, props=("C07",), check_defined=True,
+                    func="sym_metanet.blocks.nodes:Node.get_downstream_density", config="admissible domain"))
+
+    for cls in ("MainstreamOrigin", "MeteredOnRamp", "SimplifiedMeteredOnRamp"):
+        def run_o(interp, c, cls=cls):
+            eng = setup_engine(interp, c, "explicit")
+            owner_cls = "MeteredOnRamp" if cls == "SimplifiedMeteredOnRamp" else cls
+            fn, k = get_fn(interp, "sym_metanet.blocks.origins", owner_cls, "step_dynamics")
+            net = G.GhostNet(interp, admissible=True)
+            o = T.var("o", R)
+            tau, eta, kappa, T_, delta, phi = params(c)
+            c.axiom(G.origin_in_net(o))
+            c.axiom(T.eq(G.cls_tag(o), G.TAGS[cls]))
+            oobj = ObjRef(o, (net.heap.classes[cls],), net.heap)
+            net.origin_facts(o)
+            run_guarded(interp, c, fn, [oobj], dict(net=net, T=T_, engine=eng, positive_next_queue=T.var("pnq", T.BOOL)))
+
+        out.append(Task(f"sym_metanet.blocks.origins:{cls}.step_dynamics<admissible>", run_o, props=("C07",), check_defined=True,
+                        func=f"sym_metanet.blocks.origins:{cls}.step_dynamics", config="admissible domain"))
+
+    for cls in ("Destination", "CongestedDestination"):
+        def run_d(interp, c, cls=cls):
+            eng = setup_engine(interp, c, "explicit")
+            fn, k = get_fn(interp, "sym_metanet.blocks.destinations", cls, "get_density")
+            net = G.GhostNet(interp, admissible=True)
+            d = T.var("d", R)
+            c.axiom(G.dest_in_net(d))
+            c.axiom(T.eq(G.cls_tag(d), G.TAGS[cls]))
+            dobj = ObjRef(d, (net.heap.classes[cls],), net.heap)
+            net.dest_facts(d)
+            run_guarded(interp, c, fn, [dobj, net, eng], {})
+
+        out.append(Task(f"sym_metanet.blocks.destinations:{cls}.get_density<admissible>", run_d, props=("C07",), check_defined=True,
+                        func=f"sym_metanet.blocks.destinations:{cls}.get_density", config="admissible domain"))
+
+    for delta_given, phi_given in ((False, False), (True, True)):
+        def run_l(interp, c, delta_given=delta_given, phi_given=phi_given):
+            eng = setup_engine(interp, c, "explicit")
+            fn, k = get_fn(interp, "sym_metanet.blocks.links", "Link", "step_dynamics")
+            net = G.GhostNet(interp, admissible=True)
+            l = T.var("l", R)
+            c.axiom(G.link_in_net(l))
+            tau, eta, kappa, T_, delta, phi = params(c)
+            kwargs = dict(net=net, tau=tau, eta=eta, kappa=kappa, T=T_, engine=eng,
+                          positive_next_speed=T.var("pns", T.BOOL), positive_next_density=T.var("pnd", T.BOOL))
+            if delta_given:
+                kwargs["delta"] = delta
+            if phi_given:
+                kwargs["phi"] = phi
+            run_guarded(interp, c, fn, [net.link(l)], kwargs)
+
+        out.append(Task(f"sym_metanet.blocks.links:Link.step_dynamics<admissible,delta={delta_given},phi={phi_given}>", run_l, props=("C07",), check_defined=True,
+                        func="sym_metanet.blocks.links:Link.step_dynamics", config=f"admissible domain,delta={delta_given},phi={phi_given}"))
+    return out
+
+
 def all_tasks():
-    return tasks_readers() + tasks_step_dynamics()
+    return tasks_readers() + tasks_step_dynamics() + tasks_admissible()
